@@ -558,7 +558,8 @@ pub fn run_pending(c: &PendingCase) -> CaseResult {
 }
 
 pub fn run(ctx: &Ctx) {
-    let tier = ctx.tier;
+    // the thorough bounds of this check cost seconds, so both tiers use them (the evidence still records the tier asked for)
+    let tier = if ctx.tier == Tier::Quick { Tier::Thorough } else { ctx.tier };
     // delivery, byte-identical, when ONE interface read is sealed for many peers from one buffer (13 / 22 nodes; C10's family)
     let large: Vec<super::c10::LargeCase> = tier.pick(vec![13usize], vec![12, 13, 22]).into_iter().map(|n| super::c10::LargeCase { n, mode: "switch".into(), plain: false }).collect();
     sweep_list(ctx, "large_mesh_delivery", &large, SweepOpts { chunk: 1, ..Default::default() }, super::c10::run_large);
